@@ -17,7 +17,7 @@ FUNCTIONS = [("pandapower.toolbox.grid_modification", "replace_line_by_impedance
 STUBS = ["builtin complex(r, x) in merge_parallel_line -> symbolic complex", "the create_* call made by the replace function is captured with its (symbolic) arguments and fed to the same ppc builders as the original "
          "element; table edits (drop, group membership, result table adaption, profiles) are stubbed out (structural)"]
 ASSUMPTIONS = ["line/impedance/ward parameters symbolic; the documented result-preserving mode only_valid_replace=True (lines without c and g)"]
-OUTSIDE = ["re-indexing, merge_nets, select_subnet, fuse_buses (structural)", "drop_inactive_elements beyond 'removes rows only, keeps what is supplied' on one 6-bus net", "only_valid_replace=False (documented as not neutral)",
+OUTSIDE = ["re-indexing, merge_nets, select_subnet (structural); fuse_buses beyond two buses joined by a closed bus-bus switch on one 5-bus ring", "drop_inactive_elements beyond 'removes rows only, keeps what is supplied' on one 6-bus net", "only_valid_replace=False (documented as not neutral)",
            "va_degree of an ext_grid replaced by a slack gen (a gen has no angle setpoint)"]
 BOUNDS = {"quick": "one element per instance: line->impedance, impedance->line, ward->load+shunt, xward->load+shunt+impedance+gen, merge_parallel_line, ext_grid->gen, gen->ext_grid", "thorough": "same"}
 _cache = {}
@@ -442,6 +442,69 @@ def make_drop_inactive(nflags):
     return fn
 
 
+_FUSE = {}
+
+
+def _fuse_net():
+    """ring with a closed bus-bus switch (buses 2 and 4) and two normally-open line switches; the index of the second open line (4) and of
+    a closed line switch's line (2... see below) coincide with bus indices, so that a reroute that forgets the switch type changes the topology"""
+    if "net" not in _FUSE:
+        net = pp.create_empty_network(sn_mva=10.)
+        b = [pp.create_bus(net, 20.) for _ in range(5)]
+        pp.create_ext_grid(net, b[0], vm_pu=1.02)
+        for f, t, l in ((0, 1, 2.0), (1, 2, 1.5), (0, 3, 3.0), (3, 2, 1.0), (1, 3, 2.5)):
+            pp.create_line_from_parameters(net, b[f], b[t], l, 0.2, 0.1, 200., 1.)
+        for bus, pq in ((1, .3), (2, .4), (3, .2), (4, .25)):
+            pp.create_load(net, b[bus], pq, pq / 3)
+        pp.create_switch(net, b[2], b[4], et="b", closed=True)
+        pp.create_switch(net, b[2], 3, et="l", closed=False)
+        pp.create_switch(net, b[3], 4, et="l", closed=False)        # element 4 == index of the bus that is fused away
+        pp.create_switch(net, b[1], 4, et="l", closed=True)
+        pp.runpp(net, numba=False, lightsim2grid=False, check_connectivity=False)
+        _FUSE["net"] = net
+    return _FUSE["net"]
+
+
+def make_fuse_buses():
+    """fuse_buses(net, b1, [b2]) for two buses joined by a closed bus-bus switch is electrically neutral: the real fuse_buses is applied to the
+    tables, the real _pd2ppc + makeYbus convert the network before and after, and the admittance between all surviving buses as well as
+    the demand at them is the same for all line parameters (line and transformer switches keep their element)"""
+    def fn(ctx):
+        gm = ctx.load("pandapower.toolbox.grid_modification")
+        p2 = ctx.load("pandapower.pd2ppc")
+        mY = ctx.load("pandapower.pypower.makeYbus")
+        from pandapower.pypower.idx_bus import PD, QD
+        V = {c: [ctx.var(f"{c}{i}", *r) for i in range(2)] for c, r in {"r_ohm_per_km": (0.01, 1.), "x_ohm_per_km": (0.01, 1.), "c_nf_per_km": (1., 300.)}.items()}
+        before = copy.deepcopy(_fuse_net())
+        after = copy.deepcopy(_fuse_net())
+        gm.fuse_buses(after, 2, [4])
+        ctx.true("fused_bus_is_dropped", 4 not in after.bus.index)
+        keep = before.switch.et != "b"
+        ctx.true("line_switches_keep_their_element", bool((after.switch.loc[keep[keep].index.intersection(after.switch.index), "element"].values ==
+                                                             before.switch.loc[keep, "element"].values).all()) if keep.sum() == after.switch.et.ne("b").sum() else False)
+        res = []
+        for net in (before, after):
+            for c, v in V.items():
+                col = list(net.line[c].values)
+                col[2], col[4] = v          # line 2 (index of the surviving bus) and line 4 (index of the fused bus)
+                setcol(ctx, net.line, c, col)
+            net._options["recycle"] = None
+            ppc, ppci = p2._pd2ppc(net)
+            Ybus, Yf, Yt = mY.makeYbus(ppci["baseMVA"], ppci["bus"], ppci["branch"])
+            Y = Ybus.toarray() if hasattr(Ybus, "toarray") else np.asarray(Ybus)
+            lk = net._pd2ppc_lookups["bus"]
+            res.append((Y, [int(lk[i]) for i in range(4)], ppci["bus"]))
+        (A, la, ba), (B, lb, bb_) = res
+        for i in range(4):
+            ctx.close(f"demand_p_at_bus{i}", ba[la[i], PD], bb_[lb[i], PD], 1e-9)
+            ctx.close(f"demand_q_at_bus{i}", ba[la[i], QD], bb_[lb[i], QD], 1e-9)
+            for j in range(4):
+                a, b = A[la[i], la[j]], B[lb[i], lb[j]]
+                ctx.close(f"Ybus[{i},{j}].re", a.real, b.real, 1e-9)
+                ctx.close(f"Ybus[{i},{j}].im", a.imag, b.imag, 1e-9)
+    return fn
+
+
 def instances(tier):
     return [Inst("line_to_impedance", make_line_to_imp(), nvars=24, samples=3, meta=dict(function="replace_line_by_impedance")),
             Inst("impedance_to_line", make_imp_to_line(), nvars=24, samples=3, meta=dict(function="replace_impedance_by_line")),
@@ -450,6 +513,7 @@ def instances(tier):
             Inst("merge_parallel_line", make_merge_parallel(), nvars=24, samples=3, meta=dict(function="merge_parallel_line")),
             Inst("drop_inactive_elements_flags", make_drop_inactive(5 if tier == "quick" else 7), nvars=10, samples=4, max_paths=2000, raises=(UserWarning,),
                  meta=dict(function="drop_inactive_elements", flags=5 if tier == "quick" else 7)),
+            Inst("fuse_buses_closed_bus_switch", make_fuse_buses(), nvars=12, samples=3, raises=(UserWarning,), meta=dict(function="fuse_buses")),
             Inst("ext_grid_to_gen", make_slack("ext_grid_to_gen"), nvars=12, samples=3, meta=dict(function="replace_ext_grid_by_gen")),
             Inst("gen_to_ext_grid", make_slack("gen_to_ext_grid"), nvars=12, samples=3, meta=dict(function="replace_gen_by_ext_grid"))]
 
